@@ -441,6 +441,7 @@ fn run_python(env: &Env, so_dir: &std::path::Path, count: u32, replay: Option<&s
     let out_file = env.verif_dir.join("target").join(format!("c18-out-{}.json", std::process::id()));
     let exe = std::env::current_exe().map_err(|e| e.to_string())?;
     let mut cmd = std::process::Command::new("python3-vt");
+    cmd.env("RUST_BACKTRACE", "0");
     cmd.arg(env.verif_dir.join("py").join("c18.py"))
         .arg("--so-dir").arg(so_dir)
         .arg("--driver").arg(exe)
@@ -480,6 +481,7 @@ pub fn run(env: &Env, rep: &Report) {
     l.add_external(evals, res["distinct_nontrivial"].as_u64().unwrap_or(0), res["labels"].as_object().cloned().unwrap_or_default(), res["samples"].as_array().cloned().unwrap_or_default());
     rep.merge("scripts", l);
     rep.set_extra("programs", json!(evals));
+    rep.set_extra("disagreements_checked", json!(evals));
     if let Some(v) = res.get("violation").filter(|v| !v.is_null()) {
         if v.get("harness").is_some() || v["script"].is_null() {
             rep.mark_inconclusive(format!("python side failed: {}", v["message"]));
